@@ -1344,6 +1344,8 @@ package ucfg
 //@ props C08 C04
 //@ norte
 //@ requires opts != nil && from != nil && from.fields != nil
+//@ at-call reifyValue requires opts.opts != nil && opts.opts.activeFields != nil && forall k string :: !has(opts.opts.activeFields.fields, k)
+//@ at-call reifyMergeValue requires opts.opts != nil && opts.opts.activeFields != nil && forall k string :: !has(opts.opts.activeFields.fields, k)
 //@ modifies *
 //@ ensures [scope @C08] opts.activeFields == old(opts.activeFields)
 //@ ensures [validated @C04] err == nil ==> recValidW(to, validators)
@@ -1770,6 +1772,7 @@ package ucfg
 //@ ensures [field_of_struct] err == nil && !skip ==> info.value == rvField(structVal, fieldIdx) && rvRootOf(info.value) == rvRootOf(structVal)
 //@ ensures [key] err == nil && !skip ==> isKeyOf(info.name, rtField(rvType(structVal), fieldIdx), old(opts.tag))
 //@ ensures [caller_options_kept] opts.configValueHandling == old(opts.configValueHandling)
+//@ ensures [scope_kept] err == nil && !skip && old(opts.activeFields) != nil ==> info.options != nil && info.options.activeFields == old(opts.activeFields) && forall k string :: has(info.options.activeFields.fields, k) == old(has(opts.activeFields.fields, k))
 //@ ensures [settable !unproved] err == nil && !skip && rvCanSet(structVal) ==> rvCanSet(info.value)
 //@ ensures [policy_from_tag] err == nil && !skip && info.tagOptions.cfgHandling != cfgDefaultHandling ==> info.options.configValueHandling == info.tagOptions.cfgHandling
 //@ ensures [policy_inherited] err == nil && !skip && info.tagOptions.cfgHandling == cfgDefaultHandling ==> info.options.configValueHandling == old(opts.configValueHandling)
@@ -1789,9 +1792,14 @@ package ucfg
 //@ sweep
 //@ rvwrites nothing
 
+// C08: every field is evaluated in a scope level of its own (fresh, empty, chained to the level of the struct), as the
+// entries of a map are - obligations at the three calls that evaluate a field
 //@ func reifyStruct :: opts, orig, cfg -> result
-//@ props C13 C07
+//@ props C13 C07 C08
 //@ sweep
+//@ at-call reifyGetField requires opts.opts != nil && opts.opts.activeFields != nil && forall k string :: !has(opts.opts.activeFields.fields, k)
+//@ at-call reifyInto requires opts != nil && opts.activeFields != nil && forall k string :: !has(opts.activeFields.fields, k)
+//@ at-call reifyMergeValue requires opts.opts != nil && opts.opts.activeFields != nil && forall k string :: !has(opts.opts.activeFields.fields, k)
 //@ requires opts != nil && cfg != nil
 //@ requires rtKind(chasedT(rvType(chasedP(orig)))) == 25
 //@ requires rvCanSet(chasedP(orig))
